@@ -234,6 +234,17 @@ pub enum Call {
     InRange { x: Fb, y: Fb },
     /// a co-owner of the shared storage mutates its handle (copy-on-write) and drops it
     Cow,
+    /// somebody builds ANOTHER interpolator over the same storage (another handle of the shared
+    /// array / another view of the viewed array), queries it once at (x, y) and drops it
+    Sibling { strat: SibStrat, x: Fb, y: Fb },
+}
+
+#[derive(Serialize, Deserialize, Clone, Debug, PartialEq)]
+pub enum SibStrat {
+    Linear { extrapolate: bool },
+    /// bc: NotAKnot | Natural | Clamped | Periodic
+    Spline { bc: Bc, extrapolate: bool },
+    Bilinear { extrapolate: bool },
 }
 
 impl Call {
@@ -248,6 +259,7 @@ impl Call {
             Call::IndexLeftOf { .. } => "get_index_left_of",
             Call::InRange { .. } => "is_in_range",
             Call::Cow => "cow",
+            Call::Sibling { .. } => "sibling_build",
         }
     }
     /// number of query elements (= strategy callbacks if nothing fails)
